@@ -474,11 +474,19 @@ func replaceEnvReferences(s, refStart, refEnd string) string {
 		endIndex += index
 		if endIndex > index+len(refStart) {
 			ref := s[index : endIndex+len(refEnd)]
-			s = strings.Replace(s, ref, os.Getenv(ref[len(refStart):len(ref)-len(refEnd)]), -1)
+			value := os.Getenv(ref[len(refStart) : len(ref)-len(refEnd)])
+			s = s[:index] + value + s[endIndex+len(refEnd):]
+			// continue after the inserted value: it is not expanded again
+			// (a value containing its own reference would never finish)
+			index += len(value)
 		} else {
 			return s
 		}
-		index = strings.Index(s, refStart)
+		next := strings.Index(s[index:], refStart)
+		if next == -1 {
+			break
+		}
+		index += next
 	}
 	return s
 }
